@@ -89,7 +89,8 @@ RECURSIVE RefUnqFrom(_, _, _, _)
 RefUnqFrom(K, t, i, acc) ==
   IF i > Len(t) THEN acc
   ELSE IF ~t[i].esc
-       THEN RefUnqFrom(K, t, i + 1, acc \o (IF t[i].b = 32 THEN <<PCT, 50, 48>> ELSE <<t[i].b>>))
+       \* raw whitespace - the ASCII space and the Unicode spaces str.strip() removes - is written escaped
+       THEN RefUnqFrom(K, t, i + 1, acc \o (IF t[i].b = 32 \/ (t[i].b >= 160 /\ IsWs(t[i].b)) THEN EscSeq(Utf8Enc(t[i].b)) ELSE <<t[i].b>>))
        ELSE LET e == CHOOSE j \in i..Len(t) : (\A k \in i..j : t[k].esc) /\ (j = Len(t) \/ ~t[j + 1].esc)
                 bytes == [k \in 1..(e - i + 1) |-> t[i + k - 1].b]
                 hs == [k \in 1..(e - i + 1) |-> t[i + k - 1].h]
